@@ -40,6 +40,7 @@ type GenCfg struct {
 	NJVars                                                                                     int    // string variables that hold node titles
 	Probes                                                                                     bool   // pn/pb/ps/pn2 host functions in expressions
 	Visited                                                                                    bool   // visited()/visited_count() in expressions
+	NoLongLines                                                                                bool   // C05/C20: every base script is loaded hundreds of times - long lines come as stream cases there
 	HostFnWrites                                                                               bool   // <<call pw("n0", e)>>: a host function that writes a variable while the script runs
 	BigRoundsPct                                                                               int    // share of hub worlds whose loop runs 126-300 rounds
 	Random                                                                                     bool   // dice/random/random_range (C09 only)
@@ -379,7 +380,7 @@ func (g *gen) lineS(isOption bool) *LineS {
 			"\\[esc\\]", "[a/] after", "[em]é日本[/em]", "[a][b]nested[/b][/a]", "[c trimwhitespace=false /] kept", "[x]open to the end",
 		}[g.tp.Int(0, 12, "markupkind")]
 	}
-	if g.outlier == "longline" && g.tp.Chance(30, "longline") {
+	if g.outlier == "longline" && !g.cfg.NoLongLines && g.tp.Chance(30, "longline") {
 		// one line of several KB, its byte length near a power of two or well beyond: buffers have sizes
 		target := []int{4096, 8192, 16384, 65536}[g.tp.Pick([]int{5, 2, 1, 1}, "longlinebase")] + g.tp.Int(-8, 8, "longlinedelta")
 		if g.tp.Chance(25, "longlinefree") {
